@@ -254,9 +254,10 @@ func CheckPPDrive(prop string, c *Case, cov *Cov) []*Violation {
 		if prop != "C11" {
 			continue
 		}
+		held := heldAt(s, off)
 		for nextJunk < len(s.Lines) && s.Lines[nextJunk].End <= off {
 			l := s.Lines[nextJunk]
-			if l.Class == gen.Junk && !l.Blank && l.Term && !isRaceLook(b[l.Start:l.End]) {
+			if l.Class == gen.Junk && !l.Blank && l.Term && !held[nextJunk] {
 				i := bytes.Index(p.out[wpos:], b[l.Start:l.End])
 				if i < 0 {
 					add("withheld-line", "", fmt.Sprintf("pp sleeps in read(0) after %d bytes; the complete pass-through line %s was delivered but is not readable from its stdout (%d bytes so far)", off, Clip(b[l.Start:l.End], 80), len(p.out)))
